@@ -34,17 +34,16 @@ Proof. exact key_reference_keyable. Qed.
 Print Assumptions C13_key_reference_keyable.
 
 (* The registries after any accepted list: marked ids pairwise distinct and as many as the reference count,
-   every marked id is the id of a marker event (or the empty initial markerID), pending forward references
-   are not marked, every reference made so far is marked or pending, and in the terminal state nothing is
-   pending. *)
+   every marked id is the id of a marker event of the list, pending forward references are not marked,
+   every reference made so far is marked or pending, and in the terminal state nothing is pending. *)
 Theorem C13_registry_invariants :
   forall cfg es c, state_after cfg es = Some c ->
     NoDup (akeys (marked c)) /\ refcount c = N.of_nat (length (marked c)) /\
-    (forall id, In id (akeys (marked c)) -> id = [] \/ In (EMarker id) es) /\
+    (forall id, In id (akeys (marked c)) -> In (EMarker id) es) /\
     (forall id, In id (akeys (fwd c)) -> alookup id (marked c) = None) /\
     (forall id, In (ERefLocal id) es -> In id (akeys (marked c)) \/ In id (akeys (fwd c))) /\
     (e_rule (cur c) = RTerminal -> fwd c = []).
-Proof. exact document_registry. Qed.
+Proof. exact registry_invariants. Qed.
 Print Assumptions C13_registry_invariants.
 
 (* Marker ids are pairwise distinct - the full statement ... *)
@@ -59,17 +58,18 @@ Theorem C13_every_marker_registered_refuted :
   exists es id, accepts_document default_rcfg es = true /\ In (EMarker id) es /\ marked_type default_rcfg es id = None.
 Proof. exact marker_registered_refuted. Qed.
 Print Assumptions C13_every_marker_registered_refuted.
-(* The proved part: the ids are pairwise distinct whenever every marker got registered. *)
+(* The proved part: the ids are pairwise distinct whenever every marker got registered (the reference count
+   equals the number of marker events) - which is what fails in the two witnesses above. *)
 Theorem C13_marker_ids_distinct_partial :
-  forall cfg es c, state_after cfg es = Some c -> ~ In [] (akeys (marked c)) -> refcount c = marker_usage es ->
-    NoDup (marker_ids es).
-Proof. exact markers_distinct_if_registered. Qed.
+  forall cfg es c, state_after cfg es = Some c -> refcount c = marker_usage es -> NoDup (marker_ids es).
+Proof. exact markers_distinct_if_all_registered. Qed.
 Print Assumptions C13_marker_ids_distinct_partial.
 
 (* Findings: nested markers (a marked container holding another marker) are rejected at the end of the
    outer container; a reference to a marked float is accepted as a map key although a float key is not. *)
 Theorem C13_nested_markers_rejected : rejected_at default_rcfg nested_marker_witness = Some 6.
 Proof. exact nested_markers_rejected. Qed.
+Print Assumptions C13_nested_markers_rejected.
 Theorem C13_float_key_reference_accepted :
   accepts_document default_rcfg float_key_witness_backward = true /\
   accepts_document default_rcfg float_key_witness_forward = true /\
@@ -77,6 +77,7 @@ Theorem C13_float_key_reference_accepted :
   N.land DT_Float Allow_Keyable <> 0 /\
   accepts default_rcfg [EBeginDoc; EVersion 0; EMap; EFloat 0] = false.
 Proof. exact float_key_reference_accepted. Qed.
+Print Assumptions C13_float_key_reference_accepted.
 
 (* Non-vacuity: forward and backward references, in key and value position. *)
 Example C13_example_accept :
